@@ -467,6 +467,21 @@ class _MethodTypeReturnInfo:
 T = TypeVar("T")
 
 
+def _dataclass_field_types(dc: Any) -> Optional[Dict[str, Any]]:
+    """Field types of a dataclass - also of a generic one given its arguments (`W[Jet]`), with
+    its type variables filled in. `None` if this is no dataclass."""
+    cls = get_origin(dc) or dc
+    if not (isinstance(cls, type) and is_dataclass(cls)):
+        return None
+    result: Dict[str, Any] = {}
+    for name, hint in get_type_hints(cls).items():
+        # (a type variable means something at the class that declares the field)
+        owner = next((c for c in cls.__mro__ if name in c.__dict__.get("__annotations__", {})), cls)
+        resolved = resolve_type_vars(hint, dc, at_class=owner)
+        result[name] = Any if resolved is None else resolved
+    return result
+
+
 def _is_type_of_a_literal(t: Any, or_dictionary: bool = False) -> bool:
     """The types we give to what is written out in a query - a python value (`'abc'`, `None`),
     a lambda, a dictionary: nobody declared any method for them."""
@@ -1017,8 +1032,9 @@ def remap_by_types(
                     raise ValueError(f"Index {index} out of range for {ast.dump(node.value)}")
                 self._found_types[node] = self.lookup_type(t_node.value.elts[index])
                 self._found_types[t_node] = self.lookup_type(t_node.value.elts[index])
-            elif ((dc := self.lookup_type(t_node.value)) is not None) and is_dataclass(dc):
-                dc_types = get_type_hints(dc)
+            elif (dc := self.lookup_type(t_node.value)) is not None and (
+                dc_types := _dataclass_field_types(dc)
+            ) is not None:
                 if isinstance(t_node.slice, ast.Constant):
                     _slice = t_node.slice.value
                     if _slice not in dc_types:
@@ -1086,8 +1102,9 @@ def remap_by_types(
                 # (python keeps the last value of a key written twice)
                 value = t_node.value.values[key_index[-1]]
                 self._found_types[node] = self.lookup_type(value)
-            elif ((dc := self.lookup_type(t_node.value)) is not None) and is_dataclass(dc):
-                dc_types = get_type_hints(dc)
+            elif (dc := self.lookup_type(t_node.value)) is not None and (
+                dc_types := _dataclass_field_types(dc)
+            ) is not None:
                 if node.attr in dc_types:
                     self._found_types[node] = dc_types[node.attr]
                 elif not callable(getattr(dc, node.attr, None)):
